@@ -55,6 +55,17 @@ structure Call where
   fault : Option Errno
   deriving Repr, DecidableEq
 
+/-- what an observer of the system-call boundary sees of the model, in time order: every call with its
+answer (and the descriptor a successful `socket` / `accept` returned) and every `close` -/
+inductive LogItem where
+  | call (c : Sys) (fd : Option Fd) (fault : Option Errno) (newfd : Option Fd)
+  | close (fd : Fd)
+  deriving Repr, DecidableEq
+
+def LogItem.isClose : LogItem → Bool
+  | .close _ => true
+  | _ => false
+
 structure Ledger where
   /-- descriptors currently open (in order of opening) -/
   live : List Fd := []
@@ -71,6 +82,9 @@ structure Ledger where
   step : Nat := 0
   trace : List Call := []            -- newest first
   closes : List (Nat × Fd) := []     -- (step, fd), newest first
+  /-- calls and closes interleaved as they happened, newest first (ghost field: nothing reads it; it is
+  what `Spec/C14.lean` takes as the observations of the model) -/
+  log : List LogItem := []
   deriving Repr, DecidableEq
 
 def M (α : Type) : Type := Oracle → Ledger → Except Exn α × Ledger
@@ -93,22 +107,24 @@ def tryM {α : Type} (m : M α) : M (Except Exn α) := fun o L =>
 def sys (c : Sys) (fd : Option Fd := none) : M (Option Errno) := fun o L =>
   (.ok (o L.pos),
    { L with pos := L.pos + 1, nfault := L.nfault + (if (o L.pos).isSome then 1 else 0),
-            trace := ⟨L.step, c, fd, o L.pos⟩ :: L.trace })
+            trace := ⟨L.step, c, fd, o L.pos⟩ :: L.trace, log := .call c fd (o L.pos) none :: L.log })
 
 /-- `socket` / `accept`: on success a fresh descriptor becomes live -/
 def sysOpen (c : Sys) (fd : Option Fd := none) : M (Except Errno Fd) := fun o L =>
   match o L.pos with
   | some e => (.ok (.error e),
-      { L with pos := L.pos + 1, nfault := L.nfault + 1, trace := ⟨L.step, c, fd, some e⟩ :: L.trace })
+      { L with pos := L.pos + 1, nfault := L.nfault + 1, trace := ⟨L.step, c, fd, some e⟩ :: L.trace,
+               log := .call c fd (some e) none :: L.log })
   | none => (.ok (.ok L.next),
       { L with pos := L.pos + 1, live := L.live ++ [L.next], next := L.next + 1,
-               trace := ⟨L.step, c, fd, none⟩ :: L.trace })
+               trace := ⟨L.step, c, fd, none⟩ :: L.trace, log := .call c fd none (some L.next) :: L.log })
 
 def Ledger.close (L : Ledger) (fd : Fd) : Ledger :=
   if fd ∈ L.live then
-    { L with live := L.live.erase fd, closed := fd :: L.closed, closes := (L.step, fd) :: L.closes }
-  else if fd ∈ L.closed then { L with closedTwice := true }
-  else { L with closedForeign := true }
+    { L with live := L.live.erase fd, closed := fd :: L.closed, closes := (L.step, fd) :: L.closes,
+             log := .close fd :: L.log }
+  else if fd ∈ L.closed then { L with closedTwice := true, log := .close fd :: L.log }
+  else { L with closedForeign := true, log := .close fd :: L.log }
 
 /-- `::close` from a destructor: never faulted, not part of the call trace -/
 def closeFd (fd : Fd) : M Unit := fun _ L => (.ok (), L.close fd)
@@ -119,10 +135,12 @@ def guardFd {α : Type} (fd : Fd) (body : M α) : M α := fun o L =>
   | (.ok a, L') => (.ok a, L')
   | (.error e, L') => (.error e, L'.close fd)
 
-/-- run without faults, outside the trace (scenario setup / teardown) -/
+/-- run without faults, outside the trace (scenario setup / teardown); as in the shim's quiet mode the
+calls are not logged, the closes are -/
 def quiet {α : Type} (m : M α) : M α := fun _ L =>
   match m (fun _ => none) L with
-  | (r, L') => (r, { L' with pos := L.pos, trace := L.trace, nfault := L.nfault })
+  | (r, L') => (r, { L' with pos := L.pos, trace := L.trace, nfault := L.nfault,
+                             log := (L'.log.take (L'.log.length - L.log.length)).filter LogItem.isClose ++ L.log })
 
 def setStep (n : Nat) : M Unit := fun _ L => (.ok (), { L with step := n })
 
